@@ -177,6 +177,13 @@ Definition read_float_source (numtab : list N) (e : et) : option source_view :=
       end
   end.
 
+(* any <source>: float arrays by the declarative reading, Name / IDREF arrays as they are *)
+Definition read_source (numtab : list N) (e : et) : option source_view :=
+  match efind a_float_array e with
+  | Some _ => read_float_source numtab e
+  | None => match load_source numtab e with Ok s => Some s | Raise _ => None end
+  end.
+
 Definition Vsource (s : source_view) : V :=
   Vl [Vn (s_uid s); Voaval (s_id s); Vn (s_kind s); Vl (map Voaval (s_comps s)); Vnat (s_rows s);
       match s_data s with DFloat d => Vl (map Vn d) | DWords d => Vl (map Vtok d) end].
@@ -400,7 +407,7 @@ Definition read_geometry (numtab : list N) (e : et) : option geom_view :=
   match efind a_mesh e with
   | None => None
   | Some mesh =>
-    match all_some (map (read_float_source numtab) (efindall_path [a_mesh; a_source] e)) with
+    match all_some (map (read_source numtab) (efindall_path [a_mesh; a_source] e)) with
     | None => None
     | Some srcs =>
       match omapM (fun s => omap (fun a => (a, ESrc (s_uid s))) (id_atom (s_id s))) srcs with
